@@ -24,6 +24,7 @@ class Opts(object):
         self.w_204 = 1
         self.w_rep = 2
         self.plain_bitmap_list = True   # 031031 written N times without a replication
+        self.repeat_elements = True
         self.bitmap_in_rep = True       # a self-contained block (elements, 22X000 + bitmap + values, 235000) as a replication body
         self.__dict__.update(kw)
 
@@ -153,9 +154,14 @@ def gen_item(ch, pool, ctx, opts, depth, pos):
 
 
 def g_elem(ch, pool, ctx, opts, depth):
-    _reserve(ctx, 1)
-    ctx.min_plain += 0 if ctx.in_rep else 1
-    return [_pick_element(ch, pool, ctx, opts)]
+    e = _pick_element(ch, pool, ctx, opts)
+    k = 1
+    if opts.repeat_elements and ctx.budget >= 3 and ch.bool(1, 7):
+        k = ch.int(2, 3)            # the same element two or three times in a row (same-ID siblings)
+        ctx.features.add('same_id_siblings')
+    _reserve(ctx, k)
+    ctx.min_plain += 0 if ctx.in_rep else k
+    return [e] * k
 
 
 def g_seq(ch, pool, ctx, opts, depth):
@@ -367,9 +373,9 @@ def _bitmap_def(ch, ctx, n, out_hints, base_len, style=None):
 def g_bitmap(ch, pool, ctx, opts, depth):
     """One or more operator blocks sharing a back-reference epoch."""
     out = []
-    n_blocks = ch.weighted([(4, 1), (3, 2), (1, 3)])
+    n_blocks = ch.weighted([(3, 1), (4, 2), (1, 3)])
     for b in range(n_blocks):
-        if ctx.budget < 5:
+        if ctx.budget < (5 if b == 0 else 3):
             break
         if ctx.epoch_len is None:
             n = ch.int(1, min(ctx.min_plain, 12))
@@ -387,11 +393,11 @@ def g_bitmap(ch, pool, ctx, opts, depth):
             blk = [_pick_num(ch, pool, ctx, 1) for _ in range(n)]
             ctx.min_plain += n
         blk.append(op * 1000)
-        recall = ctx.stored_bitmap and ch.bool()
+        recall = ctx.stored_bitmap and ch.bool(2, 3)
         if recall:
             blk.append(237000)
         else:
-            reuse = ch.bool(1, 3)
+            reuse = ch.bool(1, 2)
             if reuse:
                 blk.append(236000)
             style = None
